@@ -12,6 +12,7 @@ import (
 	"runtime"
 	"strings"
 	"sync"
+	"time"
 
 	"pgregory.net/rapid"
 )
@@ -155,6 +156,13 @@ type Log struct {
 	noExit     bool
 	keepAll    bool
 	minimizing bool
+	// watchdog: a single Check that exceeds these budgets is cut off by making every further
+	// invocation skip at once; the scenario is then inconclusive (never held, never violated)
+	started      time.Time
+	accepted     int
+	exhausted    string
+	lastAccepted []uint64
+	witness      *Inv
 }
 
 // X is the execution context handed to program steps.
@@ -170,6 +178,12 @@ type X struct {
 	cleanupSeq int
 	skipping   bool // the program called Skip and the panic is unwinding
 }
+
+const (
+	maxInvsPerCheck     = 1500000
+	maxAcceptedPerCheck = 30000
+	maxWallPerCheck     = 150 * time.Second
+)
 
 var curX *X // the most recently started invocation (programs are single threaded)
 
@@ -197,6 +211,34 @@ func (l *Log) prop(body func(x *X)) func(*rapid.T) {
 			l.minimizing = true
 		}
 		l.Invs = append(l.Invs, inv)
+		if l.started.IsZero() {
+			l.started = time.Now()
+		}
+		if inv.phase() == "accepted" {
+			l.accepted++
+			// online backstop for the C05 chain oracle: c_i < B_(i-1) <= c_(i-1), so a candidate that is not
+			// strictly smaller than the previous accepted one means minimisation may cycle forever - stop feeding it
+			if l.lastAccepted != nil && shortlexCmp(inv.Cand, l.lastAccepted) >= 0 && l.exhausted == "" {
+				l.exhausted = "an accepted candidate was not smaller than the previous accepted one"
+				l.witness = inv
+			}
+			l.lastAccepted = inv.Cand
+		}
+		if l.exhausted == "" {
+			switch {
+			case len(l.Invs) > maxInvsPerCheck:
+				l.exhausted = fmt.Sprintf("more than %d invocations in one Check", maxInvsPerCheck)
+			case l.accepted > maxAcceptedPerCheck:
+				l.exhausted = fmt.Sprintf("more than %d accepted shrink steps in one Check", maxAcceptedPerCheck)
+			case len(l.Invs)%1024 == 0 && time.Since(l.started) > maxWallPerCheck:
+				l.exhausted = fmt.Sprintf("one Check ran longer than %v", maxWallPerCheck)
+			}
+		}
+		if l.exhausted != "" {
+			inv.Draws, inv.Cand = nil, nil
+			l.Invs = l.Invs[:len(l.Invs)-1] // keep memory bounded; the log is not judged any more
+			t.Skip("verif watchdog")
+		}
 		x := &X{t: t, inv: inv, log: l, where: "body"}
 		curX = x // stays current until the next invocation begins: cleanups run after the body returned
 		defer func() {
@@ -694,6 +736,8 @@ type progOpts struct {
 	failDen    int // hash-predicate failure probability is about 1/failDen
 	onlyKinds  []int
 	siblings   bool // force an "at least two elements" failure (equal sibling groups in the minimum)
+	skipFirst  int  // if > 0: skip about 1/skipFirst of all cases right after the first draw
+	skipAfter  bool // add a skip after the failure steps (non-fatal failure followed by Skip)
 }
 
 func genProg(seed uint64, o progOpts) *Prog {
@@ -722,6 +766,9 @@ func genProg(seed uint64, o progOpts) *Prog {
 		if _, ok := exampleInt(g); ok {
 			nInt++
 		}
+		if i == 0 && o.skipFirst > 0 {
+			p.Steps = append(p.Steps, Step{Op: "skipif", Pred: hashPred(r, o.skipFirst)})
+		}
 		if r.chance(1, 6) {
 			p.Steps = append(p.Steps, Step{Op: "skipif", Pred: hashPred(r, r.between(4, 12))})
 		}
@@ -746,6 +793,9 @@ func genProg(seed uint64, o progOpts) *Prog {
 		kind := o.pickKind(r)
 		pred := o.failPred(r, p, s == 0 && o.siblings)
 		p.Steps = append(p.Steps, Step{Op: "failif", Pred: pred, Kind: kind, Site: s})
+	}
+	if o.skipAfter {
+		p.Steps = append(p.Steps, Step{Op: "skipif", Pred: hashPred(r, 2)})
 	}
 	var ds []string
 	for _, s := range p.Steps {
